@@ -13,6 +13,7 @@ pub mod c27;
 pub mod c28;
 pub mod c29;
 pub mod c30;
+pub mod c32;
 
 pub fn register(v: &mut Vec<CheckDef>) {
     v.push(dsio::def_c01());
@@ -28,5 +29,6 @@ pub fn register(v: &mut Vec<CheckDef>) {
     v.push(c28::def());
     v.push(c29::def());
     v.push(c30::def());
+    v.push(c32::def());
     v.push(c34::def());
 }
